@@ -1,11 +1,14 @@
 #!/bin/sh
-# builds the framework from files on disk only (offline): Rocq development (full .vo build),
-# extraction + model runner, harness front end
+# builds the framework from files on disk only (offline): harness front end, tables regenerated from
+# /repo's sources (coq/Generated/Src.v), Rocq development (full .vo build), extraction + model runner
 set -e
 cd "$(dirname "$0")"
 export GOFLAGS=-mod=mod GOPROXY=off GOSUMDB=off GOTOOLCHAIN=local
 mkdir -p bin .cache
-(cd coq && coq_makefile -f _CoqProject -o Makefile >/dev/null && timeout 3000 make -j16)
-(cd ocaml && ./build.sh)
 (cd harness && go build -o ../bin/vh ./cmd/vh)
+./bin/vh translate "${VERIF_REPO:-/repo}" coq/Generated/Src.v || [ $? -eq 3 ]
+# -k: a file that no longer agrees with the sources (Proofs/SrcAgree.v) must not keep the model from being built;
+# the checks report it for the properties that rely on it
+(cd coq && coq_makefile -f _CoqProject -o Makefile >/dev/null && (timeout 3000 make -k -j16 || true) && test -f Model/Build.vo)
+(cd ocaml && ./build.sh)
 echo "setup done"
